@@ -20,6 +20,7 @@
 Require Import Cirbo.Model.Base Cirbo.Model.Gate Cirbo.Model.Circuit Cirbo.Model.Connect
         Cirbo.Model.History Cirbo.Model.WF.
 Require Import Cirbo.Proofs.WFBase Cirbo.Proofs.WFEmplace Cirbo.Proofs.WFStep Cirbo.Proofs.WFSound.
+Require Import Cirbo.Generated.Converters Cirbo.Proofs.WFBench Cirbo.Proofs.ConvertersGen Cirbo.Proofs.ConvertersGenWF.
 
 Theorem C02_empty_wf : WF empty_circuit /\ inputs_nullary empty_circuit.
 Proof. exact Inv_empty. Qed.
@@ -37,6 +38,16 @@ Proof. exact history_inv. Qed.
 Theorem C02_history_wf_from_empty : forall os c',
   history_ok empty_circuit os -> foldM step os empty_circuit = Ok c' -> WF c'.
 Proof. exact history_wf_from_empty. Qed.
+
+(* the into_bench case once more, for the driver of Model/Connect.v run over the rewrite rules that
+   translator T6 regenerates from converters.py on every check (Generated/Converters.v); normal
+   returns of generated_into_bench and of the into_bench used by `step` coincide
+   (Properties/C14.v C14_rules_regenerated).  binary_le' : the comparison-like gates of c have at
+   most two operands (the into_bench clause of op_ok, in the weaker form the proof uses). *)
+Theorem C02_into_bench_regenerated_wf : forall c fresh c',
+  WF c -> inputs_nullary c -> binary_le' c -> generated_into_bench c fresh = Ok c' ->
+  WF c' /\ inputs_nullary c'.
+Proof. exact generated_into_bench_inv_le. Qed.
 
 (* the executable check that the correspondence harness evaluates on every dumped
    implementation state is exactly WF *)
